@@ -606,6 +606,16 @@ SubprocessResult run_process(const vector<string>& cmd, const string* stdin_data
     }
   }
 
+  // Close the pipe ends that are still open: the output pipes if the process
+  // exited before EOF was read from them, and the input pipe if the process
+  // exited (or closed its stdin) before reading everything
+  for (const auto& it : read_fd_to_buffer) {
+    p.remove(it.first, true);
+  }
+  for (const auto& it : write_fd_to_buffer) {
+    p.remove(it.first, true);
+  }
+
   if (check && sp.wait()) {
     throw runtime_error(string_printf("command returned code %d\nstdout:\n%s\nstderr:\n%s",
         sp.wait(), ret.stdout_contents.c_str(), ret.stderr_contents.c_str()));
